@@ -3,7 +3,7 @@
 // This source code is licensed under the MIT license found in the
 // LICENSE file in the root directory of this source tree.
 
-use alloc::vec::Vec;
+use alloc::{string::ToString, vec::Vec};
 
 use crypto::{BatchMerkleProof, ElementHasher, Hasher};
 use math::FieldElement;
@@ -99,7 +99,12 @@ impl Queries {
         H: ElementHasher<BaseField = E::BaseField>,
     {
         assert!(domain_size.is_power_of_two(), "domain size must be a power of two");
-        assert!(num_queries > 0, "there must be at least one query");
+        // the number of queries is taken from the proof being parsed
+        if num_queries == 0 {
+            return Err(DeserializationError::InvalidValue(
+                "there must be at least one query".to_string(),
+            ));
+        }
         assert!(values_per_query > 0, "a query must contain at least one value");
 
         // make sure we have enough bytes to read the expected number of queries
